@@ -404,7 +404,7 @@ class Ctx:
             # evidence/ only ever describes complete runs against /repo itself: self-tests against a scratch copy
             # (VERIF_REPO) and partial runs (--only / --replay) write to the git-ignored work directory instead.
             partial = bool(self.args.only) or self.only_case is not None
-            scratch = os.path.realpath(os.environ.get("VERIF_REPO", "/repo")) != os.path.realpath("/repo")
+            scratch = os.path.realpath(os.environ.get("VERIF_REPO", "/repo")) != os.path.realpath("/repo") or bool(os.environ.get("VERIF_SELFTEST"))
             edir = os.path.join(VERIF, ".work", "evidence-selftest") if (partial or scratch) else os.path.join(VERIF, "evidence")
             os.makedirs(edir, exist_ok=True)
             path = os.path.join(edir, self.pid + ".json")
